@@ -6,7 +6,10 @@
    wrappers and error mappings are transcribed, the library functions are universally quantified
    and constrained by the hypothesis lib_as_assumed (they compute the rounded exact result and flag
    overflow / underflow / division by zero) -- for those operations the correspondence run is the
-   only tie to the code. Also covers the fixed-point part of C13 (theorems C15_sat_fix64, C15_sat_ufix64, C15_sat_all). *)
+   only tie to the code. The library has a known division defect on a narrow input class
+   (fmd_edge: quotient whose low 64-bit word is 2^64-2, divisor not reducible to 64 bits), which the
+   hypothesis and therefore the theorems about / , saturatingDivide and multiplyDivide of the 128-bit
+   types exclude (C15_lib_division_edge_witness records an observed instance). Also covers the fixed-point part of C13 (theorems C15_sat_fix64, C15_sat_ufix64, C15_sat_all). *)
 From CV Require Import C15.Model C15.Proofs64 C15.ProofsLib C15.Cases.
 
 (* ---- Fix64 / UFix64: + - * /, all operands, no assumption ---- *)
@@ -53,7 +56,7 @@ Print Assumptions C15_sat_ufix64.
 (* ---- all four types, library as assumed ---- *)
 Theorem C15_arith_exact_or_fails : forall lib_fmd lib_add lib_sub lib_mod lib_neg,
   lib_as_assumed lib_fmd lib_add lib_sub lib_mod lib_neg ->
-  forall k op a b, is_fixed k = true -> n_in_range k a -> n_in_range k b ->
+  forall k op a b, is_fixed k = true -> n_in_range k a -> n_in_range k b -> ~ div_edge k op a b ->
   arith_model lib_fmd lib_add lib_sub k op a b = spec_arith k op a b.
 Proof. exact arith_model_correct. Qed.
 Print Assumptions C15_arith_exact_or_fails.
@@ -80,6 +83,7 @@ Print Assumptions C15_mod_exact.
 Theorem C15_multiply_divide : forall lib_fmd lib_add lib_sub lib_mod lib_neg,
   lib_as_assumed lib_fmd lib_add lib_sub lib_mod lib_neg ->
   forall k m a b c, is_fixed k = true -> n_in_range k a -> n_in_range k b -> n_in_range k c ->
+  ~ fmd_edge k a b c ->
   muldiv_model lib_fmd k m a b c = spec_muldiv k m a b c.
 Proof. exact muldiv_correct. Qed.
 Print Assumptions C15_multiply_divide.
@@ -87,9 +91,33 @@ Print Assumptions C15_multiply_divide.
 Theorem C15_sat_all : forall lib_fmd lib_add lib_sub lib_mod lib_neg,
   lib_as_assumed lib_fmd lib_add lib_sub lib_mod lib_neg ->
   forall k op a b, is_fixed k = true -> sat_declared k op = true -> n_in_range k a -> n_in_range k b ->
+  ~ div_edge k op a b ->
   sat_model lib_fmd lib_add lib_sub k op a b = spec_sat k op a b.
 Proof. exact sat_model_correct. Qed.
 Print Assumptions C15_sat_all.
+
+(* the guard div_edge concerns only / of Fix128 and UFix128 (never + - *, never the 64-bit types) *)
+Theorem C15_division_edge_scope : forall k op a b,
+  div_edge k op a b -> (k = NFix128 \/ k = NUFix128) /\ op = FDiv.
+Proof. exact div_edge_only_128_div. Qed.
+Print Assumptions C15_division_edge_scope.
+
+(* the full statements (no guard) -- false for the real library, see the witness below *)
+Definition C15_division_statement : Prop :=
+  forall lib_fmd lib_add lib_sub lib_mod lib_neg,
+  lib_as_assumed lib_fmd lib_add lib_sub lib_mod lib_neg ->
+  forall k a b, is_fixed k = true -> n_in_range k a -> n_in_range k b ->
+  arith_model lib_fmd lib_add lib_sub k FDiv a b = spec_arith k FDiv a b.
+
+(* An instance of the excluded class, observed on the real code on every run of the check
+   (known finding fix128-division-edge): UFix128 52.572240717353133641610668 / 2849946.879909258078115628637149
+   returns 0.000018446744073709551615; the property requires the truncated quotient ...614.
+   The input lies in fmd_edge's arithmetic condition: the truncated quotient is 2^64 - 2. *)
+Theorem C15_lib_division_edge_witness :
+  spec_arith NUFix128 FDiv 52572240717353133641610668 2849946879909258078115628637149 = Ok 18446744073709551614 /\
+  (Z.abs (52572240717353133641610668 * scale NUFix128) / Z.abs 2849946879909258078115628637149) mod 2 ^ 64 = 2 ^ 64 - 2.
+Proof. vm_compute. split; reflexivity. Qed.
+Print Assumptions C15_lib_division_edge_witness.
 
 (* unary minus: exact-or-fail, except that -(Fix128.min) fails with an UNDERFLOW error although the
    exact result lies above the maximum *)
